@@ -76,12 +76,39 @@ def main():
     if args and args[0] == '--import':
         do_import(args[1], args[2], args[3])
         return 0
+    props = ALL
+    for a in list(args):
+        if a.startswith('--props='):
+            props = a.split('=', 1)[1].split(',')
+            args.remove(a)
     ids = args or sorted(d for d in os.listdir(NEUTRAL) if os.path.isfile(
         os.path.join(NEUTRAL, d, 'patch.diff')))
+    from multiprocessing import Pool
+    with Pool(12) as pool:
+        results = pool.map(_one, [(sid, props) for sid in ids])
     alarms = 0
-    for sid in ids:
-        d = os.path.join(NEUTRAL, sid)
-        root = tempfile.mkdtemp(prefix='bfg_neutral_')
+    for sid, bad in results:
+        if bad is None:
+            print(sid, 'patch does not apply (stale)')
+        elif bad:
+            alarms += 1
+            print('{:22s} FALSE ALARM'.format(sid))
+            for p, rc, lines in bad:
+                for l in lines:
+                    print('     {} rc={}: {}'.format(p, rc, l[:220]))
+        else:
+            print('{:22s} silent'.format(sid))
+    print('\n{} neutral refactorings, {} raise a false alarm ({})'.format(
+        len(ids), alarms, ','.join(props) if props is not ALL else 'all '
+        'properties'))
+    return 1 if alarms else 0
+
+
+def _one(arg):
+    sid, props = arg
+    d = os.path.join(NEUTRAL, sid)
+    root = tempfile.mkdtemp(prefix='bfg_neutral_')
+    try:
         shutil.copytree('/repo/bfg9000', os.path.join(root, 'bfg9000'),
                         ignore=shutil.ignore_patterns('__pycache__'))
         r = sh(['git', 'apply', '--unsafe-paths', '--directory=' + root,
@@ -90,29 +117,25 @@ def main():
             r = sh(['patch', '-p1', '-s', '-i',
                     os.path.join(d, 'patch.diff')], cwd=root)
         if r.returncode:
-            print(sid, 'patch does not apply (stale)')
-            shutil.rmtree(root, ignore_errors=True)
-            continue
+            return sid, None
         bad = []
-        for p in ALL:
-            c = sh([PY, '-m', 'sa.run', '--property', p, '--tier', 'quick',
-                    '--repo', root], cwd=VERIF)
-            if c.returncode != 0:
-                lines = [l.strip() for l in c.stdout.splitlines()
-                         if 'violated:' in l or 'ANALYSIS-ERROR' in l]
-                bad.append((p, c.returncode, lines[:3]))
+        c = sh([PY, '-m', 'sa.multi', root, ','.join(props)], cwd=VERIF,
+               env=dict(os.environ, VERIF_NO_EVIDENCE='1'))
+        cur = None
+        for l in c.stdout.splitlines():
+            if l.startswith('## '):
+                p, rc = l[3:].split(' rc=')
+                cur = None
+                if rc != '0':
+                    cur = (p, int(rc), [])
+                    bad.append(cur)
+            elif cur is not None and len(cur[2]) < 4:
+                cur[2].append(l.strip())
+        if c.returncode != 0:
+            bad.append(('multi', c.returncode, c.stdout.splitlines()[-3:]))
+        return sid, bad
+    finally:
         shutil.rmtree(root, ignore_errors=True)
-        if bad:
-            alarms += 1
-            print('{:22s} FALSE ALARM'.format(sid))
-            for p, rc, lines in bad:
-                for l in lines:
-                    print('     {} rc={}: {}'.format(p, rc, l[:220]))
-        else:
-            print('{:22s} silent'.format(sid))
-    print('\n{} neutral refactorings, {} raise a false alarm'.format(
-        len(ids), alarms))
-    return 1 if alarms else 0
 
 
 if __name__ == '__main__':
